@@ -168,6 +168,15 @@ def ensure_consumer(ctx, consumer_uuid, project_id, user_id,
         # consumer record
         consumer, created_new_consumer = _create_consumer(
             ctx, consumer_uuid, proj, user, cons_type_id)
+        if requires_consumer_generation and not created_new_consumer:
+            # The user told us (consumer_generation of None) that they expect
+            # the consumer not to exist, but a racing request created it
+            # after we looked: that is a generation conflict, not a license
+            # to replace the other request's allocations.
+            raise webob.exc.HTTPConflict(
+                'consumer generation conflict - '
+                'expected null but got %s' % consumer.generation,
+                comment=errors.CONCURRENT_UPDATE)
 
     # Also return the project, user, and consumer type from the request to use
     # for rollbacks.
